@@ -22,6 +22,8 @@ use uuid::Uuid;
 use self::server::Server;
 
 pub mod server;
+#[cfg(iwe_verif)]
+pub mod verif;
 
 #[derive(Debug, PartialEq, Clone, Copy)]
 pub enum LspClient {
@@ -90,6 +92,8 @@ impl Router {
                         "Panic occurred with unknown cause".to_string()
                     };
                     error!("Panic message: {}", error_message);
+                    #[cfg(iwe_verif)]
+                    verif::at(verif::Point::LoopPanic(error_message.clone()));
                     false
                 });
 
@@ -105,7 +109,11 @@ impl Router {
             Message::Request(req) => {
                 let request = req;
                 let self_clone = self.clone();
+                #[cfg(iwe_verif)]
+                let verif_id = request.id.clone();
                 let _ = std::thread::spawn(move || self_clone.on_request(request));
+                #[cfg(iwe_verif)]
+                verif::at(verif::Point::ReqTaken(verif_id));
                 false
             }
             Message::Notification(notification) => self.on_notification(notification),
@@ -115,8 +123,18 @@ impl Router {
 
     fn on_notification(&mut self, notification: Notification) -> bool {
         if notification.method == "exit" {
+            #[cfg(iwe_verif)]
+            verif::at(verif::Point::LoopExit);
             return true;
         }
+
+        #[cfg(iwe_verif)]
+        if notification.method == "$/verif/refs" {
+            verif::at(verif::Point::Refs(Arc::strong_count(&self.server)));
+            return false;
+        }
+        #[cfg(iwe_verif)]
+        verif::at(verif::Point::NotifBegin(notification.method.clone()));
 
         match notification.method.as_str() {
             "textDocument/didChange" => {
@@ -136,10 +154,15 @@ impl Router {
             }
         };
 
+        #[cfg(iwe_verif)]
+        verif::at(verif::Point::NotifDone);
+
         false
     }
 
     fn on_request(&self, request: Request) -> bool {
+        #[cfg(iwe_verif)]
+        let _verif_guard = verif::WorkerGuard::new(request.id.clone());
         if request.method == "shutdown" {
             self.respond(Response {
                 id: request.id.clone(),
@@ -212,6 +235,9 @@ impl Router {
         };
 
         // schedule update
+
+        #[cfg(iwe_verif)]
+        verif::at(verif::Point::WComputed(request.id.clone()));
 
         match response {
             Ok(value) => self.respond(Response {
